@@ -340,6 +340,9 @@ const ZONED_FORMATS: &[&str] = &[
     // day of year plus a (redundant) weekday
     "%Y-%j %a %T%.f %z",
     "%A, day %j in %Y, %T %:z",
+    // seconds since the epoch after other fields (the zone name, a weekday)
+    "%Q %s",
+    "[%:Q] %a @%s",
 ];
 const CIVIL_FORMATS: &[&str] = &["%Y-%m-%d %H:%M:%S%.f", "%F %T.%f", "%A %B %d %Y %I.%M.%S%.f %p", "%Y %j %R:%S%.f", "%G %V %u %T%.f", "%m/%d/%Y %T%.f", "%d %b %Y %H%M%S%.f", "%Y%m%d%H%M%S", "%Y %U %w %T%.f", "%Y %W %u %T%.f", "%Y-W%U-%a %T"];
 
@@ -369,7 +372,11 @@ fn test_roundtrip(c: &RtCase, cx: &mut Cx) -> CaseResult {
         let ctx = format!("[{}] {zf:?} -> {text:?}", f.z.label);
         let has_frac = zf.contains("f");
         let want = if has_frac { f.inst_ns } else { f.inst_ns.div_euclid(NS_PER_SEC) * NS_PER_SEC };
-        if zf.contains("%s") || !needs_name || named {
+        // (%s after a numeric offset - which is what %Q prints for a zone without a name - replaces
+        // that offset by UTC on the unchanged tree as well; the instant is kept. Not settled by the
+        // documentation: such combinations are only judged for named zones.)
+        let s_after_q = zf.contains("%s") && needs_name;
+        if (zf.contains("%s") && !s_after_q) || (!needs_name || named) && (!s_after_q || named) {
             match Zoned::strptime(zf, &text) {
                 Ok(p) => {
                     ensure!(p.timestamp().as_nanosecond() == want, "zoned-roundtrip", "{ctx}: parsed back to {p} ({}), want instant {want}", p.timestamp().as_nanosecond());
@@ -406,7 +413,7 @@ fn test_roundtrip(c: &RtCase, cx: &mut Cx) -> CaseResult {
                 "broken-down-from-zoned-fields",
                 "{ctx}: BrokenDownTime::from(&zoned) = {bdt:?}"
             );
-            if zf.contains("%s") || !needs_name || named {
+            if (zf.contains("%s") && !s_after_q) || (!needs_name || named) && (!s_after_q || named) {
                 match strtime::parse(zf, &text) {
                     Ok(p) => {
                         let has = |specs: &[&str]| specs.iter().any(|s| zf.contains(s));
